@@ -10,7 +10,7 @@ Model lines (answered by the state machines of `Model.lean`):
 * `cbc <iv> <table> (e|d <blocks>)*` — one `cbc` object after `set_iv`; `<table>` lists the block
   function as `in:out` pairs recorded from libcrypto's raw AES (oracle answers for the external);
   every `e`/`d` group is one `encrypt`/`decrypt` call on whole 16-byte blocks.
-* `key <text>` — `key::set_hex`.
+* `key <text>` — `key::set_hex`; `keyfile <content>` — `key::read_from_file`.
 Judge lines (`J …`, answered by the definitions of `Spec.lean` only) evaluate the property predicate
 on an output of the implementation. -/
 open Cppcms Cppcms.C16
@@ -83,21 +83,26 @@ def cbcRun (t : List (Bytes × Bytes)) : CbcState Bytes → List String → Opti
 def step (_ : Unit) (line : String) : Unit × String :=
   let r : String :=
     match words line with
-    | "dg" :: "md5" :: ws => runSession (md5Obj zeros64) ws
-    | "dg" :: "sha1" :: ws => runSession (sha1Obj zeros64) ws
-    | "hmac" :: "md5" :: k :: ws => match parseHex k with
+    | "dg" :: "md5" :: ws | "dg2" :: "md5" :: ws => runSession (md5Obj zeros64) ws
+    | "dg" :: "sha1" :: ws | "dg2" :: "sha1" :: ws => runSession (sha1Obj zeros64) ws
+    | "hmac" :: "md5" :: k :: ws | "hmac2" :: "md5" :: k :: ws => match parseHex k with
       | some key => runSession (hmacObj (md5Obj zeros64) key) ws
       | none => "bad-op"
-    | "hmac" :: "sha1" :: k :: ws => match parseHex k with
+    | "hmac" :: "sha1" :: k :: ws | "hmac2" :: "sha1" :: k :: ws => match parseHex k with
       | some key => runSession (hmacObj (sha1Obj zeros64) key) ws
       | none => "bad-op"
-    | "cbc" :: iv :: tbl :: ws => match parseHex iv, parseTable tbl with
+    | "cbc" :: _bits :: _key :: iv :: tbl :: ws => match parseHex iv, parseTable tbl with
       | some iv, some t => (match cbcRun t (cbcSetIv iv) ws with
         | some outs => " ".intercalate outs
         | none => "bad-op")
       | _, _ => "bad-op"
     | ["key", h] => match parseHex h with
       | some s => keyStr (setHex s)
+      | none => "bad-op"
+    | ["keyfile", h] => match parseHex h with
+      | some s => (match readFromFile s with
+        | .emptyFile => "empty-file"
+        | .parsed r => keyStr r)
       | none => "bad-op"
     | ["sha1len", n] => match n.toNat? with
       | some k => toHex (nats (Gen.sha1LenBytes (Gen.sha1BitCount (k % 2 ^ 64))))
